@@ -57,6 +57,8 @@ def shards(tier):
             out.append({"part": "one", "kind": kind, "tier": tier, "n": n - 1, "first": None})
         else:
             out.append({"part": "one", "kind": kind, "tier": tier, "n": n, "first": None})
+    # object keys of mixed type that are equal in Python: 1 == 1.0 == True is ONE group
+    out.append({"part": "one", "kind": "obj", "tier": tier, "n": 3, "first": None, "alpha": [None, 1, 1.0, True, 2]})
     for kind in KINDS:
         for length in ([17, 40, 1025] if not big else [17, 40, 130, 300, 1025, 65537]):
             out.append({"part": "long", "kind": kind, "length": length, "period": (3 if not big else 4) if length < 1000 else 2})
@@ -65,7 +67,8 @@ def shards(tier):
         for first in range(len(V.alphabet(k1, "key"))):
             out.append({"part": "two", "kinds": [k1, k2], "n": n, "first": first})
         out.append({"part": "two", "kinds": [k1, k2], "n": n - 1, "first": None})
-    return out
+    from mc import harness
+    return harness.with_array_forms(out, tier, lambda sh: sh["part"] == "one" and sh.get("first") is None)
 
 
 def payload_cols(n):
@@ -404,7 +407,7 @@ def run_shard(shard, rec):
     ops = all_ops()
     if shard["part"] == "one":
         kind, tier, n = shard["kind"], shard["tier"], shard["n"]
-        alpha = V.alphabet(kind, tier)
+        alpha = shard.get("alpha") or V.alphabet(kind, tier)
         if shard["first"] is None:
             it = V.seqs(alpha, 0, n)
         else:
